@@ -5,7 +5,7 @@ from guard import Guards, check_refusal
 
 LEVEL = "other"
 EXPLANATION = (
-    "Decides ONE clause of C10: each component function returns an error (never an answer) on the wrong kind of graph. "
+    "Decides TWO clauses of C10 (kind refusal; start nodes enumerated from the node store -- R-C10-2): each component function returns an error (never an answer) on the wrong kind of graph. "
     "Rule R-C10-1 (GUARD): in the MIR of connected_components, number_of_connected_components, node_connected_component "
     "(refuse directed) and weakly_/strongly_connected_components (refuse undirected), every block that can produce a non-error "
     "return value is reachable from the entry only through the continue edge of a guard -- a test of specs.directed, or the "
@@ -40,4 +40,32 @@ def run(ctx):
     for sfx, field, value, what in (("Graph::ensure_directed", "directed", False, "undirected graphs"), ("Graph::ensure_undirected", "directed", True, "directed graphs")):
         check_refusal(ctx, g, "R-C10-1", prog.one(sfx), field, value, what)
     ctx.floor("R-C10-1", "component_functions", n, 5)
+    # ------------------------------------------------------------------ R-C10-2
+    ctx.rule("R-C10-2", "component functions enumerate their start nodes from the node store (every node is a candidate), not from an adjacency map's keys")
+    from hashord import natural_loop_blocks
+    from mir import loc_str
+
+    for sfx in ("connectivity::connected_components", "weak_connectivity::weakly_connected_components", "strong_connectivity::strongly_connected_components"):
+        b = prog.one(sfx)
+        fl = flows.of(b)
+        pushes = [t for t in b.calls() if t.callee and t.callee.short.endswith("Vec::push") and t.args and t.args[0].place is not None]
+        # the vector that is returned
+        ret = fl.slice_local([("L", 0)], data_only=True)
+        res_pushes = [t for t in pushes if any(o in ret for o in [("L", x[1]) for x in fl._operand_pts(t.args[0]) if x[0] == "L"])]
+        outer = None
+        loops = []
+        for t in b.calls():
+            if t.callee and t.callee.short == "std::iter::Iterator::next":
+                lb = natural_loop_blocks(b, t.bb)
+                if len(lb) > 1 and res_pushes and all(p.bb in lb for p in res_pushes):
+                    loops.append((t, lb))
+        loops.sort(key=lambda x: -len(x[1]))
+        if not loops:
+            ctx.violation("R-C10-2", "outer-loop|" + b.short, "%s has no loop around the pushes into its result" % sfx.split("::")[-1], loc_str(b.span))
+            continue
+        t, lb = loops[0]
+        sl = fl.slice_local(fl._op_reads(t.args[0]), data_only=True)
+        cal = {b.blocks[n_[1]].term.callee.short.split("::")[-1] for n_ in sl if n_[0] == "CALL" and b.blocks[n_[1]].term.callee}
+        ok = bool(cal & {"get_all_node_names", "get_all_nodes"}) and not (cal & {"get_successors_map", "get_predecessors_map", "keys", "get_all_edges"})
+        ctx.require(ok, "R-C10-2", "outer-loop|" + b.short, "%s starts a search from every node of the node store" % sfx.split("::")[-1], "%s enumerates its start nodes from %s: a node without an entry there (e.g. an isolated node) ends up in no component" % (sfx.split("::")[-1], sorted(cal)), loc_str(t.span))
     ctx.note("bfs_equal_size_partitions and breadth_first_search have no error channel; they cannot refuse and are handled under C20")
